@@ -674,6 +674,24 @@ def search(payload):
         bad_out = check_not_in_language(text)
         if bad_out is not None:
             fails.append({"text": text, "tokens": ts, "outside_language": True, **bad_out})
+    # HISTORY in this one process: an expression, then a text OUTSIDE the language that differs from it only by blanks (or that was rejected
+    # before, asked again; or a table for no variable after a table for three): nothing remembered from the first call may answer the second
+    for first, second in (("pq", "p q"), ("p & qr", "p & q r"), ("foo | bar", "fo o | bar"), ("true", "tr ue"), ("~pq", "~p q"), ("p & q", "p & & q"), ("(p | q)", "(p | q"), ("pq", "p q")):
+        n += 2
+        for cmd, opt in CONFIGS:
+            run_cli(cmd, first, opt)
+        bad_out = check_not_in_language(second)
+        if bad_out is not None:
+            fails.append({"text": second, "tokens": second.split(), "outside_language": True, **bad_out,
+                          "history": f"in one process: {first!r} (an expression of the language) was handled first, then {second!r}"})
+    for first, second in (("a & b & c", "true"), ("a & b & c", "p | ~p"), ("a | b", "false"), ("x ^ y ^ z", "true & true")):
+        n += 2
+        for cmd, opt in CONFIGS:
+            run_cli(cmd, first, opt)
+        ts2 = [t for t in second.replace("(", " ( ").replace(")", " ) ").replace("~", " ~ ").split()]
+        bad_out = check_in_language(ts2, second)
+        if bad_out is not None and not bad_out.get("optimize"):
+            fails.append({"text": second, "tokens": ts2, **bad_out, "history": f"in one process: {first!r} was handled first, then {second!r}"})
     known = [k for k in vlib.load_known().get("findings", []) if "C20" in k.get("properties", [])]
     known_ids = {k["id"] for k in known}
     new, known_hits = [], []
